@@ -31,6 +31,17 @@ CHECKS = {
   "note": COMMON_NOTE + "Modelled not verified: pointer structure as an inductive tree (parent/child symmetry by construction), unique "
           "ids, childrenMu locking; seedVia only as a flag.",
  },
+ "C13": {
+  "text": "Theorems over the token bucket in exact rationals, for every event sequence and timing: tokens in [0, cap], rate in "
+          "[min(0.5, configured), configured]; over any window [a, a+T] at most cap + T x configured-rate releases (potential-function "
+          "proof); after the n-th consecutive 429/403/408/425 no release before min(5*2^(n-1), 30) s have passed, for every n; 5xx only "
+          "lowers and success only raises the rate; the LFU table never exceeds max(maxBuckets, 1). Constants, status classes, the "
+          "floor and penalty expressions are regenerated from the package; event sequences run against the real tokenBucket under an "
+          "injected clock (plus the real blocking Wait and the real BucketManager) and are compared with the model and with "
+          "independent window/penalty/rate oracles.",
+  "note": COMMON_NOTE + "Modelled not verified: float64 arithmetic (the theorems are about exact rationals; decisions are compared "
+          "exactly, numbers within 1e-9), non-decreasing time, method atomicity by the mutex, Go map iteration order in LFU eviction.",
+ },
 }
 
 _todo = "check not built yet in this session (work in progress; see DESIGN.md §4 for the planned model and theorems)"
